@@ -195,20 +195,8 @@ def run(ctx):
                 "groups, equal-onset rows, plain tags); distinct = distinct history; non-trivial = at least one process")
     ctx.tlc("MC_EventCtx", "MC_EventCtx.cfg", workers=16, coverage=True,
             label="design: incremental context == declarative context (T=4, A=4)", timeout=900)
-    gen = "MC_EventCtx_gen.cfg"
-    made = None
-    if not quick:
-        with open(os.path.join(tlc.SPECS, gen)) as f:
-            txt = f.read().replace("T = 3", "T = 4").replace("A = 3", "A = 4")
-        made = os.path.join(tlc.SPECS, "MC_EventCtx_gen4.cfg")
-        with open(made, "w") as f:
-            f.write(txt)
-        gen = "MC_EventCtx_gen4.cfg"
-    try:
-        r = ctx.tlc("MC_EventCtx", gen, workers=1, label="history generation with expected context", timeout=1800)
-    finally:
-        if made:
-            os.remove(made)
+    gen = "MC_EventCtx_gen.cfg" if quick else ctx.cfg("MC_EventCtx_gen.cfg", ("T = 3", "T = 4"), ("A = 3", "A = 4"))
+    r = ctx.tlc("MC_EventCtx", gen, workers=1, label="history generation with expected context", timeout=1800)
     ctx.exhaustive = True
     cases = []
     for n, j in enumerate(r.json_lines):
